@@ -1125,9 +1125,12 @@ mutant("z3m-constant-false-filtered", "C01", Z3, "        solver.add(self.conver
 variant("z3m-constraints-added-one-by-one", "C01", Z3, "        solver.add(self.converted_constraints)", "        for c in self.converted_constraints:\n            solver.add(c)")
 mutant("sgr-list-batch-replaces", "C03", SUGAR, "            self.converted_constraints += map(_convert_expr, constraint)", "            self.converted_constraints = list(map(_convert_expr, constraint))", "SGR-5")
 variant("sgr-list-batch-extend", "C03", SUGAR, "            self.converted_constraints += map(_convert_expr, constraint)", "            self.converted_constraints.extend(_convert_expr(c) for c in constraint)")
-mutant("cfg-fallback-first-solve-default-backend", ["C20", "C02"], SOLVER, """        if not csp_solver.solve():
+mutant("cfg-fallback-first-solve-default-backend", "C20", SOLVER, """        if not csp_solver.solve():
             # inconsistent problem""", """        if not self.find_answer():
             # inconsistent problem""", "CFG-1")
+mutant("ref-fallback-first-solve-other-backend", "C02", SOLVER, """        if not csp_solver.solve():
+            # inconsistent problem""", """        if not self.find_answer():
+            # inconsistent problem""", "REF-E")
 mutant("gen-symmetric-adjacency-manhattan", "C19", GBUILD, "                    if (y2 - y, x2 - x) in self.disallow_adjacent:", "                    if self.disallow_adjacent and abs(y2 - y) + abs(x2 - x) == 1:", "GEN-2")
 mutant("seg-one-line-split-by-slice", "C18", GSEG, """                if len(block) >= self.min_block_size * 2:
 """, """                if len(block) >= self.min_block_size * 2:
@@ -1136,7 +1139,7 @@ mutant("seg-one-line-split-by-slice", "C18", GSEG, """                if len(blo
                             ret.append(([i], [block[:k], block[k:]]))
                         continue
 """, "SEG-E")
-mutant("ench-grid-graph-cached-by-size", ["C04", "C08"], GRAPH, """def _grid_graph(height: int, width: int) -> Graph:
+mutant("ench-grid-graph-cached-by-size", "C04", GRAPH, """def _grid_graph(height: int, width: int) -> Graph:
     graph = Graph(height * width)
 """, """_GRID_GRAPHS: dict = {}
 
@@ -1146,7 +1149,7 @@ def _grid_graph(height: int, width: int) -> Graph:
         return _GRID_GRAPHS[height * width]
     graph = _GRID_GRAPHS[height * width] = Graph(height * width)
 """, "ENC-H")
-variant("ench-grid-graph-cached-by-shape", ["C04", "C08"], GRAPH, """def _grid_graph(height: int, width: int) -> Graph:
+variant("ench-grid-graph-cached-by-shape", ["C04", "C05", "C07"], GRAPH, """def _grid_graph(height: int, width: int) -> Graph:
     graph = Graph(height * width)
 """, """_GRID_GRAPHS: dict = {}
 
@@ -1166,3 +1169,43 @@ variant("opc6a-elementwise-flattens-add", "C12", ARRAY, """        if bool_op:
             expr_operands = [y for x in expr_operands for y in (x.operands if isinstance(x, IntExpr) and x.op == op else [x])]
         if bool_op:
             res.append(BoolExpr(op, expr_operands))""", "addition is associative: flattening it keeps every element's value")
+
+# ---- round 8 ---------------------------------------------------------------------------------------
+mutant("opc6-invert-rewrites-le-as-ge", ["C01", "C12"], EXPR, """    def __invert__(self) -> "BoolExpr":
+        return _make_bool_expr(Op.NOT, [self])""", """    def __invert__(self) -> "BoolExpr":
+        if self.op == Op.LE:
+            return _make_bool_expr(Op.GE, [self.operands[0], self.operands[1]])
+        return _make_bool_expr(Op.NOT, [self])""", "OPC-6")
+variant("opc6-invert-rewrites-le-as-gt", ["C01", "C12"], EXPR, """    def __invert__(self) -> "BoolExpr":
+        return _make_bool_expr(Op.NOT, [self])""", """    def __invert__(self) -> "BoolExpr":
+        if self.op == Op.LE:
+            return _make_bool_expr(Op.GT, [self.operands[0], self.operands[1]])
+        return _make_bool_expr(Op.NOT, [self])""", "not (a <= b) is a > b")
+mutant("z3m-add-constraint-filters-constants", ["C01", "C02"], Z3, """            self.converted_constraints += map(
+                lambda e: _convert_expr(e, self.variables_dict), constraint
+            )""", """            converted = [_convert_expr(e, self.variables_dict) for e in constraint]
+            self.converted_constraints += [c for c in converted if not isinstance(c, bool)]""", "Z3M-4")
+variant("z3m-add-constraint-drops-true", ["C01", "C02"], Z3, """            self.converted_constraints += map(
+                lambda e: _convert_expr(e, self.variables_dict), constraint
+            )""", """            converted = [_convert_expr(e, self.variables_dict) for e in constraint]
+            self.converted_constraints += [c for c in converted if c is not True]""", "a constraint that is the constant True may be dropped")
+mutant("opc6a-zero-literal-fast-path", "C12", ARRAY, """    size = functools.reduce(lambda x, y: x * y, shape, 1)
+""", """    if op in [Op.ADD, Op.SUB]:
+        for zero, other in (operands, operands[::-1]):
+            if type(zero) is int and zero == 0 and isinstance(other, (Array1D, Array2D)):
+                return cast(Union["IntArray1D", "IntArray2D"], other)
+    size = functools.reduce(lambda x, y: x * y, shape, 1)
+""", "OPC-6A")
+mutant("rt-is-hex-accepts-capitals", "C15", SER, "        if not (48 <= i <= 57 or 97 <= i <= 102):", "        if not (48 <= i <= 57 or 97 <= i <= 102 or 65 <= i <= 70):", "RT-LEAF")
+mutant("exc-is-hex-accepts-capitals", "C17", SER, "        if not (48 <= i <= 57 or 97 <= i <= 102):", "        if not (48 <= i <= 57 or 97 <= i <= 102 or 65 <= i <= 70):", "EXC-6V")
+mutant("rng10-random-keeps-first-generator", "C19", DRND, """    global _rng
+    return float(_rng.next()) / _XORSHIFT_DOMAIN_SIZE""", """    rng = random.__dict__.setdefault("rng", _rng) if False else _FIRST.setdefault("rng", _rng)
+    return float(rng.next()) / _XORSHIFT_DOMAIN_SIZE
+
+
+_FIRST: dict = {}""", "RNG-10")
+mutant("cfg6-strtobool-zero-true", "C20", CONF, """    elif s in ("false", "0"):
+        return False""", """    elif s == "false":
+        return False
+    elif s.isdigit():
+        return bool(s)""", "CFG-6")
